@@ -1,15 +1,15 @@
 SPECIFICATION MCSpec
 CONSTANTS
- Calls = {1, 2, 3, 4, 5, 6, 7, 8}
+ Calls = {1, 2, 3, 4, 5, 6, 7}
  Hosts = {1, 2, 3}
  Hyst = 3
  RetryDelay = 1
  Defect = "none"
- MCCalls = {1, 2, 3, 4, 5, 6, 7, 8}
+ MCCalls = {1, 2, 3, 4, 5, 6, 7}
  Serial = TRUE
  Kinds <- KSr
  Froms <- F1
- Tos <- T2
+ Tos <- T23
  Shapes <- ShFull
  DelimSets <- DNone
  Ctxs <- CxLive
